@@ -20,9 +20,18 @@
    All statements of the language are covered: raise / raise from / bare raise, try/except
    (typed, bare, as-name with the implicit deletion), else, finally, with-blocks (WithTransform:
    pass-through, swallowing and raising __exit__), loops with return/break/continue, probes; any
-   nesting.  (except* is not in the language: differential testing only.) *)
+   nesting.  (except* is not in the language: differential testing only.)
+
+   annot / exec_a / run_tmp (M_ExcVars) = the exception STATE at the level of the generated temps:
+               annot mirrors the assignments of code.funcstate.exc_vars (ExceptClauseNode: the
+               temps filled by GetException; TryFinallyStatNode: its own temps for the EXCEPTION
+               copy of the finally clause only) and resolves every bare raise, at generation time,
+               to the temps it reads or to the dynamic __Pyx_ReraiseException(); exec_a runs the
+               annotated code over a store of temps (one variable per allocating construct).
+               keep = true: the variant that keeps an enclosing handler's exc_vars for the
+               exception copy. *)
 From Coq Require Import List Bool.
-From CyVerif Require Import Model.M_Exc Model.M_ExcLab Proof.P_Exc Proof.P_ExcLab.
+From CyVerif Require Import Model.M_Exc Model.M_ExcLab Model.M_ExcVars Proof.P_Exc Proof.P_ExcLab Proof.P_ExcVars.
 Import ListNotations.
 
 (* all programs, all calling contexts
@@ -139,6 +148,51 @@ Theorem C22_late_error_label_switch_refuted :
     fst (run_lab false true true s h t b) = ORaise 0.
 Proof. exact late_switch_refuted. Qed.
 Print Assumptions C22_late_error_label_switch_refuted.
+
+(* ---- exception state in the generated temps ----
+   whole functions, ALL programs: the code with exc_vars resolved at generation time computes the
+   outcome of the structural scheme, and (unless the zeroed-temps state of the unrepaired
+   ReraiseStatNode is reached) its whole final state *)
+Theorem C22_temp_code_equals_scheme : forall fx sx s h t b,
+  fst (run_tmp false fx sx s h t b) = fst (run_sch fx sx s h t b) /\
+  (fst (run_sch fx sx s h t b) <> OCrash ->
+   run_sch fx sx s h t b =
+   (fst (run_tmp false fx sx s h t b), set_cur None (snd (run_tmp false fx sx s h t b)))).
+Proof. exact run_tmp_eq_run_sch. Qed.
+Print Assumptions C22_temp_code_equals_scheme.
+
+(* general form: any statement at any clause position (ev = the exc_vars value the enclosing
+   clauses installed, n = constructs generated so far), any machine state whose temps ev hold
+   what the scheme's cur holds *)
+Theorem C22_temp_code_simulates_scheme : forall fx sx s ev n c tm, ev_lt ev n ->
+  sim ev n tm (exec_sch fx sx s (proj ev tm c)) (exec_a fx sx (fst (annot false s ev n)) c tm).
+Proof. intros fx sx. exact (proj1 (main_sim fx sx)). Qed.
+Print Assumptions C22_temp_code_simulates_scheme.
+
+(* ... hence every bare raise re-raises, every probe sees and every __context__ records the
+   exception CPython has current at that point *)
+Theorem C22_temp_code_matches_cpython : forall sx s h t b,
+  same_obs (run_ref s h t b) (run_tmp false true sx s h t b).
+Proof. exact tmp_matches_reference. Qed.
+Print Assumptions C22_temp_code_matches_cpython.
+
+(* a bare raise as the finally clause, on the exception path, re-raises the exception propagating
+   through the statement, under any enclosing handler and in any state *)
+Theorem C22_reraise_in_finally_is_the_propagating_one : forall fx sx body ev n c tm e,
+  fst (fst (exec_a fx sx (fst (annot false body ev (S n))) c tm)) = ORaise e ->
+  fst (fst (exec_a fx sx (fst (annot false (CFinally true body CReraise) ev n)) c tm)) = ORaise e.
+Proof. exact reraise_in_finally_propagating. Qed.
+Print Assumptions C22_reraise_in_finally_is_the_propagating_one.
+
+(* the model depends on WHICH exc_vars the exception copy of a finally clause is generated with:
+   keeping the enclosing handler's, try/finally in a handler re-raises the handler's exception *)
+Theorem C22_kept_outer_exc_vars_refuted :
+  exists s h t b,
+    fst (run_tmp true true true s h t b) = ORaise 0 /\
+    fst (run_ref s h t b) = ORaise 1 /\
+    fst (run_tmp false true true s h t b) = ORaise 1.
+Proof. exact keep_outer_exc_vars_refuted. Qed.
+Print Assumptions C22_kept_outer_exc_vars_refuted.
 
 (* non-trivial instance: nested handlers, as-name, finally, a with-block whose __exit__ lets the
    exception through, chaining; both runs raise the same exception with the same context *)
